@@ -16,6 +16,7 @@ import (
 
 	"verif/internal/explore"
 	"verif/internal/gen"
+	"verif/internal/model"
 	"verif/internal/report"
 	"verif/internal/run"
 	"verif/internal/world"
@@ -75,6 +76,8 @@ func c11Worlds(tier string) []*world.Spec {
 	out = append(out, &world.Spec{SchemaID: "X:modules", HookItems: -1, Paths: []world.PathSpec{
 		{Path: "/root", Schema: modSchema, Funcs: gen.Functions, Files: []world.FileSpec{
 			{Name: "main.tf", Text: "variable \"a\" {\n  type = string\n}\nlocals {\n  l1 = var.a\n  l2 = [local.l1, var.a]\n}\nmodule \"one\" {\n  source = \"./m1\"\n  in = local.l2[0]\n}\noutput \"o\" {\n  value = module.one.out\n}\n"},
+			// a file that sorts before the one holding the module block mentions the module's output
+			{Name: "a_early.tf", Text: "output \"early\" {\n  value = module.one.out\n}\n"},
 			{Name: "res.tf", Text: "resource \"t\" \"a\" {\n  count = 2\n  x = \"${count.index}-${self.n}\"\n  n = count.index\n  conn {\n    host = self.x\n  }\n}\nresource \"t\" \"b\" {\n  for_each = { k = var.a }\n  x = each.value\n  n = t.a.n\n}\noutput \"p\" {\n  value = t.b.x\n}\n"},
 		}},
 		{Path: "/m1", Schema: modSchema, Funcs: gen.Functions, Files: []world.FileSpec{
@@ -95,6 +98,18 @@ func c11Worlds(tier string) []*world.Spec {
 			{Name: "main.tf", Text: "module \"one\" {\n  source = \"./m1\"\n  in = \"eu\"\n}\noutput \"o\" {\n  value = module.one.out\n}\n"}}},
 		{Path: "/m1", Schema: modSchema, Funcs: gen.Functions, Files: []world.FileSpec{
 			{Name: "m.tf", Text: "variable \"in\" {\n}\noutput \"out\" {\n  value = var.in\n}\nmodule \"one\" {\n  source = \"./m1\"\n  in = \"again\"\n}\noutput \"o2\" {\n  value = module.one.out\n}\n"}}},
+	}})
+	// implied origins declared by the ROOT body schema, in a path of two files
+	rootImplied := func() *schema.BodySchema {
+		return &schema.BodySchema{
+			ImpliedOrigins: schema.ImpliedOrigins{{OriginAddress: lang.Address{lang.RootStep{Name: "module"}, lang.AttrStep{Name: "a"}},
+				TargetAddress: lang.Address{lang.RootStep{Name: "output"}, lang.AttrStep{Name: "out"}}, Path: lang.Path{Path: "/m1"}, Constraints: schema.Constraints{ScopeId: "so"}}},
+			Attributes: map[string]*schema.AttributeSchema{"ref": {Constraint: schema.Reference{OfScopeId: "sm"}, IsOptional: true}, "other": {Constraint: schema.LiteralType{Type: cty.Number}, IsOptional: true}},
+		}
+	}
+	out = append(out, &world.Spec{SchemaID: "X:root-implied-two-files", HookItems: -1, Paths: []world.PathSpec{
+		{Path: "/root", Schema: rootImplied, Files: []world.FileSpec{{Name: "a.tf", Text: "ref = module.a\n"}, {Name: "b.tf", Text: "other = 1\n"}}},
+		{Path: "/m1", Schema: modSchema, Funcs: gen.Functions, Files: []world.FileSpec{{Name: "m.tf", Text: "variable \"in\" {\n}\noutput \"out\" {\n  value = var.in\n}\n"}}},
 	}})
 	// two caller paths that are textual copies of each other (same file names, same ranges), both pointing into /m1
 	out = append(out, &world.Spec{SchemaID: "X:copied-callers", HookItems: -1, Paths: []world.PathSpec{
@@ -249,6 +264,7 @@ func c11World(sp *world.Spec, c *report.Collector, l *report.Local) {
 		w.Reader.Fail[world.PK(lang.Path{Path: "/m1"})] = true
 	}
 	c11Converse(sp, w, c, l)
+	c11Implied(sp, w, c, l)
 	for pi := range w.Paths {
 		ctx := w.Ctx(pi)
 		if ctx == nil {
@@ -621,4 +637,64 @@ func C11(tier string) int {
 		Assumptions:  []string{"an origin without constraints resolves to typed declarations only (statement silent: library's choice encoded)", "inverse is probed at every definition byte for the first origin byte and at the first definition byte for the other origin bytes"},
 		BiteCounters: []string{"resolutions", "inverse_checks", "synthetic_pairs", "local_name_resolutions"},
 	})
+}
+
+// c11Implied: a body in force that implies origins (module.one.out stands for output.out of /m1) gives every written
+// reference with that address, in whichever file of the path it stands, exactly one path origin per implying block.
+func c11Implied(sp *world.Spec, w *world.World, c *report.Collector, l *report.Local) {
+	for pi := range w.Paths {
+		ctx := w.Ctx(pi)
+		if ctx == nil || ctx.Schema == nil {
+			continue
+		}
+		var implied []schema.ImpliedOrigin
+		implied = append(implied, ctx.Schema.ImpliedOrigins...)
+		for _, f := range ctx.Files {
+			body, ok := f.Body.(*hclsyntax.Body)
+			if !ok {
+				continue
+			}
+			for _, b := range body.Blocks {
+				bs, ok := ctx.Schema.Blocks[b.Type]
+				if !ok {
+					continue
+				}
+				if bs.Body != nil {
+					implied = append(implied, bs.Body.ImpliedOrigins...)
+				}
+				if e := model.Effective(bs, b); e.Dep != nil && (e.Sel == model.Resolved || e.Sel == model.Partial) {
+					implied = append(implied, e.Dep.ImpliedOrigins...)
+				}
+			}
+		}
+		for _, io := range implied {
+			for _, o := range ctx.ReferenceOrigins {
+				lo, ok := o.(reference.LocalOrigin)
+				if !ok || !lo.Addr.Equals(io.OriginAddress) {
+					continue
+				}
+				l.Count("implied_origin_checks", 1)
+				n := 0
+				for _, o2 := range ctx.ReferenceOrigins {
+					if po, ok := o2.(reference.PathOrigin); ok && po.Range == lo.Range && po.TargetAddr.Equals(io.TargetAddress) && po.TargetPath.Equals(io.Path) {
+						n++
+					}
+				}
+				want := 0
+				for _, io2 := range implied {
+					if io2.OriginAddress.Equals(io.OriginAddress) && io2.TargetAddress.Equals(io.TargetAddress) && io2.Path.Equals(io.Path) {
+						want++
+					}
+				}
+				if n != want {
+					clause := "implied:path-origin-missing"
+					if n > want {
+						clause = "implied:path-origin-duplicated"
+					}
+					c.Add(&report.Violation{Clause: clause, Site: "implied-origin", Check: "c11", SchemaID: sp.SchemaID, Files: specFiles(sp),
+						Detail: fmt.Sprintf("path %s: the reference %s at %s stands for %s in %s (implied by %d block(s)) but has %d path origins of that kind", w.Paths[pi].Path, lo.Addr, fmtRange(lo.Range), io.TargetAddress, io.Path.Path, want, n)})
+				}
+			}
+		}
+	}
 }
